@@ -149,6 +149,13 @@ func (ex *Exec) registerIntrinsics() {
 	I[T+"vSymbolic"] = func(ex *Exec, fr *frame, a []V) V { return ts.Bool(ex.hooks.concrete == nil) }
 	I[T+"vSameBits"] = func(ex *Exec, fr *frame, a []V) V { return ex.sameBits(a[0], a[1]) }
 	I[T+"vSameBacking"] = func(ex *Exec, fr *frame, a []V) V {
+		for _, v := range a[:2] {
+			if i, ok := v.(Iface); ok {
+				if _, isSl := i.V.(Slice); !isSl {
+					return ts.fls // not slices (scalar Data()): no shared backing array
+				}
+			}
+		}
 		x, y := ex.ifaceSlice(a[0]), ex.ifaceSlice(a[1])
 		return ts.Bool(x.B != nil && x.B == y.B)
 	}
